@@ -186,7 +186,7 @@ def key(w: World) -> str:
         t = re.sub(r"\b(LOOP|IF|WHILE)[A-Z_]*\d*", "L", t)
         pend.append(t)
     mm = w.conn.builder._mem_mgr
-    return json.dumps({"live": [q.qubit_id for q in w.live], "active": [q.qubit_id for q in mm._active_qubits],
+    return json.dumps({"live": [q.qubit_id for q in w.live], "active": [q.qubit_id for q in w.conn.active_qubits],
                        "pending": pend, "alloc": w.allocated(),
                        "arr_to_ret": len(mm._arrays_to_return)})
 
